@@ -360,7 +360,8 @@ def ob_project(dim, full=False):
             st = g.stmts[g.producer[pr.outs[t][0]]]
             check(sorted(st['outs']) == sorted(pr.outs[t]), 'one statement produces all outputs of a custom target')
             if pr.ins[t] is not None:
-                check([os.path.normpath(i) for i in st['ins']] == pr.ins[t], 'the statement of a custom target consumes exactly its declared inputs, in order')
+                ab = lambda p_: os.path.normpath(os.path.join(c.bld, p_))
+                check([ab(i) for i in st['ins']] == [ab(i) for i in pr.ins[t]], 'the statement of a custom target consumes exactly its declared inputs, in order')
             else:
                 check(len(st['ins']) == 2 and all(i in g.producer for i in st['ins']), 'generator outputs consumed by a custom target are produced by a statement')
                 cover('generator')
